@@ -349,4 +349,236 @@ Proof.
     + apply Hold in Hin; exact Hin.
 Qed.
 
+(* the entry list after removing the node's old entry: duplicate-free, no entry of `id` left,
+   entries of other nodes untouched *)
+Lemma old_entry_removed s ix id n0 :
+  inv s -> index s = Some ix -> get_node s id = Some n0 -> first_ok n0 = true ->
+  let ixd := match pget ikey (n_props n0) with Some o => idx_del (enc o, id) ix | None => ix end in
+  NoDup ixd /\ (forall k, ~ In (k, id) ixd) /\
+  (forall k id', id' <> id -> (In (k, id') ixd <-> In (k, id') ix)).
+Proof.
+  intros I Hix Hn F. pose proof (inv_nodup s I ix Hix) as ND.
+  destruct (pget ikey (n_props n0)) as [o|] eqn:P; cbn zeta.
+  - destruct (idx_del_nodup (enc o, id) ix ND) as [N1 N2]. split; [exact N1|]. split.
+    + intros k Hin. assert (Hin' := idx_del_in _ _ _ Hin).
+      destruct (inv_sound s I ix k id Hix Hin') as (n & w & Hn' & _ & P' & ->).
+      rewrite Hn in Hn'. inversion Hn'; subst n. rewrite P in P'. inversion P'; subst w. exact (N2 Hin).
+    + intros k id' Hne. split; [apply idx_del_in|]. intros Hin. apply idx_del_keep; [exact Hin|].
+      intros E. inversion E. contradiction.
+  - split; [exact ND|]. split; [|intros; reflexivity].
+    intros k Hin. destruct (inv_sound s I ix k id Hix Hin) as (n & w & Hn' & _ & P' & _).
+    rewrite Hn in Hn'. inversion Hn'; subst n. rewrite P in P'. discriminate.
+Qed.
+
+Lemma inv_props s id sets : inv s -> bad_step s (OProps id sets) = false -> inv (step s (OProps id sets)).
+Proof.
+  intros I B. cbn [Model.bad_step] in B. apply negb_false_iff in B. cbn [Model.step].
+  destruct (get_node s id) as [n0|] eqn:Hn0; [|exact I].
+  set (f := fun n => mkNode (n_first n) (n_labels n) (apply_sets sets (n_props n)) (n_deleted n)).
+  set (ix' := option_map _ (index s)).
+  assert (G : forall id' n', get_node (mkState (upd_nth (nodes s) (N.to_nat id) f) ix') id' = Some n' ->
+            (id' <> id /\ get_node s id' = Some n') \/ (id' = id /\ n' = f n0)).
+  { intros id' n' H. change (get_node (upd_node (mkState (nodes s) ix') id f) id' = Some n') in H.
+    rewrite get_node_upd in H. destruct (id =? id') eqn:E.
+    - apply N.eqb_eq in E; subst id'. right. split; [reflexivity|].
+      change (get_node (mkState (nodes s) ix') id) with (get_node s id) in H. rewrite Hn0 in H. inversion H; reflexivity.
+    - apply N.eqb_neq in E. left. split; [congruence|exact H]. }
+  assert (G2 : forall id', id' <> id -> forall n', get_node s id' = Some n' ->
+            get_node (mkState (upd_nth (nodes s) (N.to_nat id) f) ix') id' = Some n').
+  { intros id' Hne n' H. change (get_node (upd_node (mkState (nodes s) ix') id f) id' = Some n').
+    rewrite get_node_upd. destruct (id =? id') eqn:E; [apply N.eqb_eq in E; congruence|exact H]. }
+  assert (G3 : get_node (mkState (upd_nth (nodes s) (N.to_nat id) f) ix') id = Some (f n0)).
+  { change (get_node (upd_node (mkState (nodes s) ix') id f) id = Some (f n0)).
+    rewrite get_node_upd, N.eqb_refl. change (get_node (mkState (nodes s) ix') id) with (get_node s id). rewrite Hn0. reflexivity. }
+  assert (Pnew : pget ikey (n_props (f n0)) = res (last_for ikey sets None) (pget ikey (n_props n0))).
+  { cbn [f n_props]. apply pget_apply_sets. reflexivity. }
+  split.
+  - intros id' n' k w H P. destruct (G _ _ H) as [[_ H']|[_ ->]]; [eapply inv_typed; eauto|].
+    cbn [f n_props] in P. destruct (pget_apply_sets_typed k sets _ w B P) as [L|R]; [exact L|eapply inv_typed; eauto].
+  - intros id' n' H L. destruct (G _ _ H) as [[_ H']|[_ ->]]; [eapply inv_first; eauto|].
+    unfold first_ok. cbn [f n_first]. apply (inv_first s I id n0 Hn0). exact L.
+  - intros ix H. subst ix'. cbn [index] in H. destruct (index s) as [ix0|] eqn:E; [|discriminate]. cbn [option_map] in H.
+    inversion H; subst ix; clear H. unfold index_on_props. fold (first_ok n0).
+    destruct (first_ok n0) eqn:F; [|eapply inv_nodup; eauto].
+    destruct (old_entry_removed s ix0 id n0 I E Hn0 F) as (N1 & N2 & _).
+    destruct (last_for ikey sets None) as [v|]; [|eapply inv_nodup; eauto].
+    destruct v; try (unfold idx_ins; constructor; [apply N2|exact N1]).
+    destruct (pget ikey (n_props n0)); [exact N1|eapply inv_nodup; eauto].
+  - intros ix id' n' w H Gn F' P. subst ix'. cbn [index] in H. destruct (index s) as [ix0|] eqn:E; [|discriminate]. cbn [option_map] in H.
+    inversion H; subst ix; clear H. unfold index_on_props. fold (first_ok n0).
+    destruct (G _ _ Gn) as [[Hne Hold]|[-> ->]].
+    + assert (Hin : In (enc w, id') ix0) by (eapply inv_complete; eauto).
+      destruct (first_ok n0) eqn:F; [|exact Hin].
+      destruct (old_entry_removed s ix0 id n0 I E Hn0 F) as (_ & _ & N3).
+      assert (Hd : In (enc w, id') (match pget ikey (n_props n0) with Some o => idx_del (enc o, id) ix0 | None => ix0 end))
+        by (apply N3; auto).
+      destruct (last_for ikey sets None) as [v|]; [|exact Hin].
+      destruct v; try (right; exact Hd).
+      destruct (pget ikey (n_props n0)); exact Hd.
+    + unfold first_ok in F'. cbn [f n_first] in F'. fold (first_ok n0) in F'. rewrite F'.
+      rewrite Pnew in P. destruct (last_for ikey sets None) as [v|]; cbn [res] in P.
+      * unfold stored in P. destruct v; inversion P; subst; left; reflexivity.
+      * eapply inv_complete; eauto.
+  - intros ix k id' H Hin. subst ix'. cbn [index] in H. destruct (index s) as [ix0|] eqn:E; [|discriminate]. cbn [option_map] in H.
+    inversion H; subst ix; clear H. unfold index_on_props in Hin. fold (first_ok n0) in Hin.
+    change (exists n w, nth_error (upd_nth (nodes s) (N.to_nat id) f) (N.to_nat id') = Some n /\ first_ok n = true /\ pget ikey (n_props n) = Some w /\ k = enc w).
+    assert (Hother : id' <> id -> In (k, id') ix0 ->
+              exists n w, nth_error (upd_nth (nodes s) (N.to_nat id) f) (N.to_nat id') = Some n /\ first_ok n = true /\ pget ikey (n_props n) = Some w /\ k = enc w).
+    { intros Hne Hi. destruct (inv_sound s I ix0 k id' E Hi) as (n & w & A & Bf & C & D). exists n, w. repeat split; auto. exact (G2 id' Hne n A). }
+    destruct (first_ok n0) eqn:F.
+    2:{ destruct (N.eq_dec id' id) as [->|Hne]; [|apply Hother; auto].
+        destruct (inv_sound s I ix0 k id E Hin) as (n & w & A & Bf & _). rewrite Hn0 in A. inversion A; subst n. congruence. }
+    destruct (old_entry_removed s ix0 id n0 I E Hn0 F) as (_ & N2 & N3).
+    set (ixd := match pget ikey (n_props n0) with Some o => idx_del (enc o, id) ix0 | None => ix0 end) in *.
+    assert (Hd : In (k, id') ixd -> exists n w, nth_error (upd_nth (nodes s) (N.to_nat id) f) (N.to_nat id') = Some n /\ first_ok n = true /\ pget ikey (n_props n) = Some w /\ k = enc w).
+    { intros Hi. destruct (N.eq_dec id' id) as [->|Hne]; [exfalso; exact (N2 k Hi)|]. apply Hother; [exact Hne|]. apply N3; auto. }
+    destruct (last_for ikey sets None) as [v|] eqn:LF.
+    + assert (Hhead : forall v', stored v' = Some v' -> v = v' -> In (k, id') (idx_ins (enc v', id) ixd) ->
+                exists n w, nth_error (upd_nth (nodes s) (N.to_nat id) f) (N.to_nat id') = Some n /\ first_ok n = true /\ pget ikey (n_props n) = Some w /\ k = enc w).
+      { intros v' Sv Ev [Heq|Hi]; [|apply Hd; exact Hi]. inversion Heq; subst k id'. exists (f n0), v'. split; [exact G3|]. repeat split; auto.
+        rewrite Pnew. cbn [res]. rewrite Ev. exact Sv. }
+      destruct v; try (refine (Hhead _ _ eq_refl Hin); reflexivity).
+      (* ONull: removal *)
+      apply Hd. unfold ixd. destruct (pget ikey (n_props n0)); exact Hin.
+    + (* untouched *)
+      destruct (N.eq_dec id' id) as [->|Hne]; [|apply Hother; auto].
+      destruct (inv_sound s I ix0 k id E Hin) as (n & w & A & Bf & C & D). rewrite Hn0 in A. inversion A; subst n.
+      exists (f n0), w. split; [exact G3|]. repeat split; auto. rewrite Pnew. cbn [res]. exact C.
+Qed.
+
+Lemma inv_step s o : inv s -> bad_step s o = false -> inv (step s o).
+Proof.
+  intros I B. destruct o.
+  - apply inv_create; assumption.
+  - apply inv_props; assumption.
+  - (* add label *)
+    cbn [Model.step]. apply inv_upd_labels; [exact I|intros n; split; reflexivity|].
+    intros n Hn L. cbn [Model.bad_step] in B. rewrite Hn in B. unfold has_label in L. cbn [n_labels] in L.
+    destruct (existsb (N.eqb l) (n_labels n)) eqn:E.
+    + eapply inv_first; eauto.
+    + rewrite has_label_app in L. apply orb_prop in L. destruct L as [L|L]; [eapply inv_first; eauto|].
+      apply N.eqb_eq in L. subst l. rewrite N.eqb_refl in B. cbn in B. apply negb_false_iff in B. exact B.
+  - (* remove label *)
+    cbn [Model.step]. apply inv_upd_labels; [exact I|intros n; split; reflexivity|].
+    intros n Hn L. eapply inv_first; eauto. unfold has_label in *. cbn [n_labels] in L.
+    apply existsb_exists in L. destruct L as (x & Hx & Ex). apply filter_In in Hx. apply existsb_exists. exists x. split; [apply Hx|exact Ex].
+  - (* delete *)
+    cbn [Model.step]. apply inv_upd_labels; [exact I|intros n; split; reflexivity|].
+    intros n Hn L. eapply inv_first; eauto.
+  - (* create index *)
+    cbn [Model.step]. destruct (index s) as [ix|] eqn:E.
+    + replace (mkState (nodes s) (Some ix)) with s; [exact I|]. destruct s; cbn in *; congruence.
+    + cbn [Model.bad_step] in B. rewrite E in B.
+      destruct I as [I1 I2 I3 I4 I5]. split; cbn [index]; unfold get_node in *; cbn [nodes]; intros; eauto.
+      * inversion H; subst. constructor.
+      * exfalso.
+        assert (existsb (fun n => (has_label n ilabel || label_eqb (n_first n) ilabel) &&
+                  match pget ikey (n_props n) with Some _ => true | None => false end) (nodes s) = true); [|congruence].
+        apply existsb_exists. exists n. split; [eapply nth_error_In; eauto|].
+        unfold first_ok in H1. rewrite H1, H2, orb_true_r. reflexivity.
+      * inversion H; subst. destruct H0.
+  - exact I.
+  - exact I.
+  - discriminate.
+Qed.
+
+Lemma inv_run_from : forall h s, inv s -> good_from ilabel ikey s h = true -> inv (fold_left step h s).
+Proof.
+  induction h as [|o t IH]; intros s I G; cbn [fold_left]; [exact I|].
+  cbn [good_from] in G. apply andb_prop in G. destruct G as [G1 G2]. apply negb_true_iff in G1.
+  apply IH; [apply inv_step; assumption|exact G2].
+Qed.
+
+Lemma inv_run h : good ilabel ikey h = true -> inv (run h).
+Proof. intros G. apply inv_run_from; [apply inv_st0|exact G]. Qed.
+
+Lemma nodup_lookup_ids K : forall ix : list entry,
+  NoDup ix -> NoDup (map snd (filter (fun e => bytes_eqb (fst e) K) ix)).
+Proof.
+  induction 1 as [|[k i] t Hn Hd IH]; cbn [filter map]; [constructor|].
+  cbn [fst]. destruct (bytes_eqb k K) eqn:E; [|exact IH]. cbn [map snd]. constructor; [|exact IH].
+  intros Hin. apply in_map_iff in Hin. destruct Hin as ([k' i'] & Hs & Hf). cbn in Hs. subst i'.
+  apply filter_In in Hf. destruct Hf as [Hf1 Hf2]. cbn [fst] in Hf2.
+  apply bytes_eqb_eq in E. apply bytes_eqb_eq in Hf2. subst. contradiction.
+Qed.
+
+Theorem inv_transparent s l preds :
+  inv s -> typed_props preds = true ->
+  (forall k0 v0 rest, preds = (k0, v0) :: rest -> k_numeric s v0 = false) ->
+  seek_eval s l preds = scan_eval s l preds.
+Proof.
+  intros I T Hnum. apply seek_scan_state. intros k0 v0 rest ids Hp L.
+  unfold Model.lookup in L. destruct ((l =? ilabel) && (k0 =? ikey)) eqn:E; [|discriminate].
+  apply andb_prop in E. destruct E as [El Ek]. apply N.eqb_eq in El, Ek. subst l k0.
+  destruct (index s) as [ix|] eqn:Hix; [|discriminate].
+  assert (Hids : ids = map snd (filter (fun e : entry => bytes_eqb (fst e) (enc v0)) ix)).
+  { match type of L with (match ?m with _ => _ end) = _ => change (ids = m); destruct m; [discriminate|inversion L; reflexivity] end. }
+  clear L. split.
+  - rewrite Hids. apply nodup_lookup_ids. eapply inv_nodup; eauto.
+  - intros id n Hn Hd Hs. unfold sat in Hs. apply andb_prop in Hs. destruct Hs as [Hl Hf].
+    rewrite Hp in Hf. cbn [forallb fst snd] in Hf. apply andb_prop in Hf. destruct Hf as [Hf _].
+    destruct (pget ikey (n_props n)) as [w|] eqn:P; [|discriminate].
+    assert (Tw : typed w = true) by (eapply inv_typed; eauto).
+    assert (Tv : typed v0 = true).
+    { rewrite Hp in T. cbn [typed_props forallb snd] in T. apply andb_prop in T. apply T. }
+    assert (K : kind w = kind v0).
+    { specialize (Hnum ikey v0 rest Hp). unfold Model.k_numeric in Hnum.
+      destruct (N.eq_dec (kind w) (kind v0)) as [Q|Q]; [exact Q|exfalso].
+      assert (existsb (fun n => negb (n_deleted n) && has_label n ilabel &&
+                 match pget ikey (n_props n) with Some w => oeq_true w v0 && negb (kind w =? kind v0) | None => false end) (nodes s) = true); [|congruence].
+      apply existsb_exists. exists n. split; [unfold get_node in Hn; eapply nth_error_In; eauto|].
+      rewrite Hd, Hl, P, Hf. apply N.eqb_neq in Q. rewrite Q. reflexivity. }
+    assert (Henc := oeq_true_enc w v0 Tw Tv K Hf).
+    assert (Hin : In (enc w, id) ix).
+    { eapply inv_complete; eauto. eapply inv_first; eauto. }
+    rewrite Hids. apply in_map_iff. exists (enc w, id). split; [reflexivity|].
+    apply filter_In. split; [exact Hin|]. cbn [fst]. apply bytes_eqb_eq. exact Henc.
+Qed.
+
 End Idx.
+
+(* ---------- the theorems of Props/C15.v ---------- *)
+Theorem index_transparent il ik (h : list op) l preds :
+  good il ik h = true -> typed_props preds = true ->
+  (forall k0 v0 rest, preds = (k0, v0) :: rest -> k_numeric il ik (run il ik h) v0 = false) ->
+  seek_eval il ik (run il ik h) l preds = scan_eval (run il ik h) l preds.
+Proof. intros G T N. apply inv_transparent; [apply inv_run; exact G|exact T|exact N]. Qed.
+
+Definition w_backfill : list op :=
+  [OCreate [0] [(1, OInt 1)]; OCreate [0] [(1, OInt 1)]; OCreateIndex; OCreate [0] [(1, OInt 1)]].
+Definition w_label : list op :=
+  [OCreateIndex; OCreate [0] [(1, OInt 1)]; OCreate [1; 0] [(1, OInt 1)]].
+Definition w_numeric : list op :=
+  [OCreateIndex; OCreate [0] [(1, OInt 1)]; OCreate [0] [(1, OFloat 4607182418800017408)]].
+Definition w_good : list op :=
+  [OCreateIndex; OCreate [0] [(1, OInt 1); (2, OStr [97])]; OCreate [0; 2] [(1, OInt 1)]; OCreate [0] [(1, OInt 1)];
+   OProps 0 [(1, OInt 5)]; OProps 0 [(1, OInt 1)]; ODelete 1; ORemoveLabel 2 0; OCompact; OCreate [1] [(1, OInt 1)]].
+
+Lemma refuted_backfill :
+  seek_eval 0 1 (run 0 1 w_backfill) 0 [(1, OInt 1)] = [2] /\
+  scan_eval (run 0 1 w_backfill) 0 [(1, OInt 1)] = [0; 1; 2] /\
+  k_backfill 0 1 (run 0 1 w_backfill) = true.
+Proof. vm_compute. repeat split. Qed.
+Lemma refuted_label :
+  seek_eval 0 1 (run 0 1 w_label) 0 [(1, OInt 1)] = [0] /\
+  scan_eval (run 0 1 w_label) 0 [(1, OInt 1)] = [0; 1] /\
+  k_label 0 1 (run 0 1 w_label) = true.
+Proof. vm_compute. repeat split. Qed.
+Lemma refuted_numeric :
+  seek_eval 0 1 (run 0 1 w_numeric) 0 [(1, OInt 1)] = [0] /\
+  scan_eval (run 0 1 w_numeric) 0 [(1, OInt 1)] = [0; 1] /\
+  k_numeric 0 1 (run 0 1 w_numeric) (OInt 1) = true /\ good 0 1 w_numeric = true.
+Proof. vm_compute. repeat split. Qed.
+Lemma full_refuted :
+  ~ (forall il ik (h : list op) l preds,
+       seek_eval il ik (run il ik h) l preds = scan_eval (run il ik h) l preds).
+Proof.
+  intros H. specialize (H 0 1 w_backfill 0 [(1, OInt 1)]).
+  destruct refuted_backfill as (A & B & _). rewrite A, B in H. discriminate.
+Qed.
+Lemma nonvacuous :
+  good 0 1 w_good = true /\
+  lookup 0 1 (run 0 1 w_good) 0 1 (OInt 1) = Some [0; 2; 1] /\
+  seek_eval 0 1 (run 0 1 w_good) 0 [(1, OInt 1)] = [0] /\
+  scan_eval (run 0 1 w_good) 0 [(1, OInt 1)] = [0].
+Proof. vm_compute. repeat split. Qed.
